@@ -146,12 +146,12 @@ CHECKS = {
         text="Lean theorems over statement-by-statement models of LargestFirstSelector and RandomImproveMultiAsset for "
              "every pool, request, limit, flag combination and index stream: selection is a duplicate-free sub-list of the "
              "pool, covers the request (+ max fee) in ADA and every asset, change = selected - request, termination, "
-             "largest-first insufficiency is genuine; the input-limit statement is proved on its true region with "
-             "machine-checked counterexamples outside. Tied to /repo by differential runs (exhaustive small pools, all "
+             "largest-first insufficiency is genuine; never more inputs than max_input_count, the min-change top-up included "
+             "(limit 0 = no input). Tied to /repo by differential runs (exhaustive small pools, all "
              "index streams to depth 6, random pools).",
         ref="3 C14", technique="Lean 4 proof (post-conditions of both selectors for all pools and random streams) + model/implementation correspondence",
         note=TB + "pool immutability holds by construction in the pure model and is checked by snapshots on the "
-                  "implementation; recorded defects KF-C14-limit and KF-C14-index."),
+                  "implementation; the input limit is proved in full since the repair of KF-C14-limit."),
     "C15": dict(
         text="Lean theorems over byte-level models of Address / PointerAddress / bech32: varnat and pointer round trips "
              "and minimality, header = kind<<4|network, byte round trip and injectivity for all 10 kinds, convertbits and "
